@@ -6,6 +6,6 @@ N=${1:-2}; RE=${2:-.}
 extra() { case "$1" in
   C01-B) echo C01,C13;; C10-R2B) echo C10,C09;; C12-R2B) echo C12,C03;; C11-R2B) echo C11,C16;;
   C12-R2A) echo C12,C13;; C14-R2B) echo C14,C20;; C09-R3A) echo C09,C10;; C09-R3B) echo C09,C10;; C09-R4A) echo C09,C10;;
-  C08-R3A) echo C08,C02;; C11-R3A) echo C11,C18;; C05-R4B) echo C05,C17,C20;; C12-R3B) echo C12,C03;; *) echo "${1%%-*}";; esac; }
+  C08-R3A) echo C08,C02;; C11-R3A) echo C11,C18;; C05-R4B) echo C05,C17,C20;; C12-R3B) echo C12,C03;; C01-R7A) echo C01,C02;; *) echo "${1%%-*}";; esac; }
 export -f extra
 ls seeded | grep -v index.json | grep -E "$RE" | xargs -P "$N" -I{} bash -c 'ids=$(extra {}); EVAL_CHECKS_ONLY=1 tools/evalseed.py /verif/seeded/{} $ids > .work/evalseed-{}.log 2>&1; grep -H "^check\|NOT kept\|does not apply\|^evaluated on" .work/evalseed-{}.log'
